@@ -64,6 +64,13 @@ def run(ctx):
             names = rng.sample(['@i1', '@i2', '@n'], rng.randint(0, 2))       # identifier / number valued, for "..@{name}.." strings
             g.ivars = names
             sh = [('var', nm, [rng.choice([('num', '5'), ('word', 'foo'), ('num', '12px')])]) for nm in names] + g.sheet(nunits=rng.choice([1, 2, 3]), depth=rng.randint(1, 3))
+            if names and rng.random() < 0.35:
+                # comma lists holding interpolated strings whose literal pieces are quote marks of the other kind, commas, blanks
+                a, b = names[0], names[-1]
+                forms = ['"@{%s}\'@{%s}"' % (a[1:], b[1:]), '\'say "@{%s}"\'' % a[1:], '"my \'@{%s}\'"' % b[1:], '"@{%s},@{%s}"' % (a[1:], b[1:]),
+                         '"@{%s}\'"' % a[1:], '\'"@{%s}\'' % b[1:], '"@{%s} , \' ,"' % a[1:]]
+                items = [rng.choice(forms + ['" - "', 'serif', '"end"', '1px']) for _ in range(rng.randint(2, 4))]
+                sh.append(('stmt', ['.q%d { content: %s; font-family: %s; }\n' % (rng.randrange(99), ', '.join(items), rng.choice(forms))]))
         if k < 0.5:
             # calls that yield nothing (guard not satisfied, empty mixin, unknown mixin) next to local variable definitions, local
             # variables only, calls only: such rules have nothing to print (raw text units: this check needs no node tree)
